@@ -97,7 +97,49 @@ func (s *SpokFile) buildGraph(requested ...string) (*dag.Graph[string, task.Task
 	// DAG of tasks using the name as the unique id
 	graph := dag.New[string, task.Task]()
 
-	// TODO: Make this recursive so it will go through dependencies of dependencies
+	// addDependencies adds the dependencies of the named task (which is already a vertex) to the
+	// graph, then their dependencies and so on. Every task is visited once, when it's vertex
+	// is created, so this terminates even if the dependencies form a cycle
+	var addDependencies func(name string) error
+	addDependencies = func(name string) error {
+		currentTask := s.Tasks[name]
+		for _, dep := range currentTask.TaskDependencies {
+			depTask, ok := s.Tasks[dep]
+			if !ok {
+				closest := s.findClosestMatch(dep)
+				err := fmt.Errorf("Task %q declares a dependency on task %q, which does not exist", currentTask.Name, dep)
+				if closest != "" {
+					// We have a close enough match to do a "did you mean X?"
+					err = fmt.Errorf("Task %q declares a dependency on task %q, which does not exist. Did you mean %q?", currentTask.Name, dep, closest)
+				}
+				return err
+			}
+			s.logger.Debug("Task %s depends on task %s", currentTask.Name, depTask.Name)
+			isNew := !graph.ContainsVertex(dep)
+			if isNew {
+				err := graph.AddVertex(dep, depTask)
+				if err != nil {
+					return fmt.Errorf("could not add vertex for task %s: %w", dep, err)
+				}
+			}
+
+			// Now create the dependency connection between the parent task and this one
+			// dep is the parent here because it must be run before the task we're
+			// currently in
+			err := graph.AddEdge(dep, name)
+			if err != nil {
+				return fmt.Errorf("could not add edge %s -> %s: %w", dep, name, err)
+			}
+
+			if isNew {
+				if err := addDependencies(dep); err != nil {
+					return err
+				}
+			}
+		}
+		return nil
+	}
+
 	for _, name := range requested {
 		requestedTask, ok := s.Tasks[name]
 		if !ok {
@@ -110,39 +152,14 @@ func (s *SpokFile) buildGraph(requested ...string) (*dag.Graph[string, task.Task
 			return nil, err
 		}
 		// Add the task as a vertex to the graph if it doesn't already exist
+		// along with everything it depends on
 		if !graph.ContainsVertex(name) {
 			err := graph.AddVertex(name, requestedTask)
 			if err != nil {
 				return nil, fmt.Errorf("could not add vertex for task %s: %w", name, err)
 			}
-		}
-
-		// For all of this tasks dependencies, do the same
-		for _, dep := range requestedTask.TaskDependencies {
-			depTask, ok := s.Tasks[dep]
-			if !ok {
-				closest := s.findClosestMatch(dep)
-				err := fmt.Errorf("Task %q declares a dependency on task %q, which does not exist", requestedTask.Name, dep)
-				if closest != "" {
-					// We have a close enough match to do a "did you mean X?"
-					err = fmt.Errorf("Task %q declares a dependency on task %q, which does not exist. Did you mean %q?", requestedTask.Name, dep, closest)
-				}
+			if err := addDependencies(name); err != nil {
 				return nil, err
-			}
-			s.logger.Debug("Task %s depends on task %s", requestedTask.Name, depTask.Name)
-			if !graph.ContainsVertex(dep) {
-				err := graph.AddVertex(dep, depTask)
-				if err != nil {
-					return nil, fmt.Errorf("could not add vertex for task %s: %w", dep, err)
-				}
-			}
-
-			// Now create the dependency connection between the parent task and this one
-			// dep is the parent here because it must be run before the task we're
-			// currently in
-			err := graph.AddEdge(dep, name)
-			if err != nil {
-				return nil, fmt.Errorf("could not add edge %s -> %s: %w", dep, name, err)
 			}
 		}
 	}
@@ -173,6 +190,10 @@ func (s *SpokFile) Run(stream iostream.IOStream, runner shell.Runner, force bool
 	runOrder, err := dag.Sort()
 	if err != nil {
 		return nil, err
+	}
+	if len(runOrder) != dag.Order() {
+		// The sort silently leaves out every task that is on, or downstream of, a cycle
+		return nil, errors.New("Task dependencies contain a cycle, the requested tasks cannot be ordered")
 	}
 	names := make([]string, 0, len(runOrder))
 	for _, taskToRun := range runOrder {
